@@ -81,6 +81,7 @@ func checkArrivalOrderIndependence(c *core.Ctx, rule string, only ...string) int
 		name string
 		pos  token.Pos
 		run  func(order []int) (string, error)
+		want func(n int) string // the text for n items arriving in order, where the layout is specified here
 	}
 	var cons []consumer
 	// fastaio.WriteAlignment / WriteWrapAlignment
@@ -103,7 +104,7 @@ func checkArrivalOrderIndependence(c *core.Ctx, rule string, only ...string) int
 			continue
 		}
 		sc := w.sc
-		cons = append(cons, consumer{"fastaio." + w.name, fn.Pos(), func(order []int) (string, error) {
+		cons = append(cons, consumer{name: "fastaio." + w.name, pos: fn.Pos(), run: func(order []int) (string, error) {
 			var feed []eval.Value
 			for _, i := range order {
 				feed = append(feed, mkFR(i))
@@ -118,11 +119,18 @@ func checkArrivalOrderIndependence(c *core.Ctx, rule string, only ...string) int
 	}
 	// snps.writeOutput
 	if fn, lt := c.LookupFunc("pkg/snps", "writeOutput"), namedType(c, "pkg/snps", "snpLine"); fn != nil && lt != nil {
-		cons = append(cons, consumer{"snps.writeOutput", fn.Pos(), func(order []int) (string, error) {
+		cons = append(cons, consumer{name: "snps.writeOutput", pos: fn.Pos(), want: func(n int) string {
+			// names are data: a '%' in one is written as it is
+			t := "query,SNPs\n"
+			for i := 0; i < n; i++ {
+				t += fmt.Sprintf("q%d 100%%s%%,A%dT\n", i, i+1)
+			}
+			return t
+		}, run: func(order []int) (string, error) {
 			var feed []eval.Value
 			for _, i := range order {
 				r := absValue(lt, "l", eval.K(0)).(*eval.StructVal)
-				r.F["queryname"] = eval.S(fmt.Sprintf("q%d", i))
+				r.F["queryname"] = eval.S(fmt.Sprintf("q%d 100%%s%%", i))
 				r.F["idx"] = eval.K(int64(i))
 				r.F["snps"] = eval.NewSlice(eval.S(fmt.Sprintf("A%dT", i+1)))
 				feed = append(feed, r)
@@ -139,7 +147,7 @@ func checkArrivalOrderIndependence(c *core.Ctx, rule string, only ...string) int
 	}
 	// updown.writeOutput
 	if fn, lt := c.LookupFunc("pkg/updown", "writeOutput"), namedType(c, "pkg/updown", "updownLine"); fn != nil && lt != nil {
-		cons = append(cons, consumer{"updown.writeOutput", fn.Pos(), func(order []int) (string, error) {
+		cons = append(cons, consumer{name: "updown.writeOutput", pos: fn.Pos(), run: func(order []int) (string, error) {
 			var feed []eval.Value
 			for _, i := range order {
 				r := mkLine(lt, fmt.Sprintf("s%d", i), int64(i), int64(i))
@@ -159,7 +167,7 @@ func checkArrivalOrderIndependence(c *core.Ctx, rule string, only ...string) int
 	}
 	// variants.WriteVariants, with the reference record in the middle of the file
 	if fn := c.LookupFunc("pkg/variants", "WriteVariants"); fn != nil {
-		cons = append(cons, consumer{"variants.WriteVariants", fn.Pos(), func(order []int) (string, error) {
+		cons = append(cons, consumer{name: "variants.WriteVariants", pos: fn.Pos(), run: func(order []int) (string, error) {
 			var feed []eval.Value
 			for _, i := range order {
 				name := fmt.Sprintf("q%d", i)
@@ -175,7 +183,7 @@ func checkArrivalOrderIndependence(c *core.Ctx, rule string, only ...string) int
 	}
 	// updown.reorderRecords (forwards on a channel)
 	if fn, lt := c.LookupFunc("pkg/updown", "reorderRecords"), namedType(c, "pkg/updown", "updownLine"); fn != nil && lt != nil {
-		cons = append(cons, consumer{"updown.reorderRecords", fn.Pos(), func(order []int) (string, error) {
+		cons = append(cons, consumer{name: "updown.reorderRecords", pos: fn.Pos(), run: func(order []int) (string, error) {
 			var feed []eval.Value
 			for _, i := range order {
 				feed = append(feed, mkLine(lt, fmt.Sprintf("s%d", i), int64(i), 0))
@@ -212,7 +220,7 @@ func checkArrivalOrderIndependence(c *core.Ctx, rule string, only ...string) int
 	}
 	// sam.writePairwiseAlignment (stdout)
 	if fn, pt := c.LookupFunc("pkg/sam", "writePairwiseAlignment"), namedType(c, "pkg/sam", "alignPair"); fn != nil && pt != nil {
-		cons = append(cons, consumer{"sam.writePairwiseAlignment", fn.Pos(), func(order []int) (string, error) {
+		cons = append(cons, consumer{name: "sam.writePairwiseAlignment", pos: fn.Pos(), run: func(order []int) (string, error) {
 			var feed []eval.Value
 			for _, i := range order {
 				p := absValue(pt, "p", eval.K(0)).(*eval.StructVal)
@@ -256,6 +264,10 @@ func checkArrivalOrderIndependence(c *core.Ctx, rule string, only ...string) int
 		if err != nil {
 			c.Und(rule+"/"+cn.name, cn.pos, "cannot evaluate: %v", err)
 			continue
+		}
+		if cn.want != nil {
+			w := cn.want(nItems)
+			c.Ob(rule+"/"+cn.name+"/layout", ref == w, cn.pos, "%d rows arriving in order are written as %q, want %q", nItems, firstN(ref, 300), firstN(w, 300))
 		}
 		var bad []string
 		for _, p := range perms {
